@@ -97,7 +97,7 @@ func check(c core.Case, out []string) *core.Failure {
 	for _, a := range anomalies {
 		switch {
 		case a == "drain-timeout":
-			return &core.Failure{Key: "push-stuck", Desc: "round-robin scheduling of all threads did not complete every call within " + strconv.Itoa(drive.DrainRounds) + " rounds"}
+			return &core.Failure{Key: "push-stuck", Desc: "round-robin scheduling of all threads did not complete every call (a Push, or a PopWait(<0) for which the generator guarantees a value) within " + strconv.Itoa(drive.DrainRounds) + " rounds"}
 		case a == "final-panic":
 			return &core.Failure{Key: "panic", Desc: "popping the remaining values from the quiescent list panicked"}
 		case a == "hang":
@@ -161,7 +161,7 @@ func check(c core.Case, out []string) *core.Failure {
 		switch {
 		case cr.Call == "l":
 			continue
-		case cr.Call == "o":
+		case cr.Call == "o" || cr.Call == "w" || cr.Call == "z":
 			o.Kind = lin.Pop
 			if !cr.Pending {
 				f := strings.Fields(cr.Ret) // pop <v> <ok>
@@ -170,6 +170,9 @@ func check(c core.Case, out []string) *core.Failure {
 				}
 				o.Val, _ = strconv.Atoi(f[1])
 				o.OK = f[2] == "true"
+				if cr.Call == "w" && !o.OK {
+					return &core.Failure{Key: "popwait-block-false", Desc: fmt.Sprintf("PopWait(-1) of thread %d returned false (it has to block until a value is popped)", cr.Tid)}
+				}
 			}
 		default:
 			o.Kind = lin.Push
@@ -224,11 +227,35 @@ func check(c core.Case, out []string) *core.Failure {
 func classify(c core.Case, out []string) []string {
 	steps, final, _ := drive.ParseTrace(c.Lines, out)
 	seen := map[string]bool{}
+	_, progs, _ := parseHeader(c.Lines[0])
+	next := make([]int, len(progs)) // index of the call each thread is executing
 	for _, st := range steps {
+		call := ""
+		if st.Tid >= 0 && st.Tid < len(progs) && next[st.Tid] < len(progs[st.Tid]) {
+			call = progs[st.Tid][next[st.Tid]]
+			if st.Ret != "" {
+				next[st.Tid]++
+			}
+		}
+		switch call {
+		case "w":
+			seen["call-PopWait(<0)"] = true
+			if st.Access == "yield" {
+				seen["popwait-spin-gosched"] = true
+			}
+			if strings.HasPrefix(st.Access, "cas head") && strings.HasSuffix(st.Access, "fail") {
+				seen["popwait-retry-after-lost-cas"] = true
+			}
+		case "z":
+			seen["call-PopWait(0)"] = true
+			if st.Ret == "pop 0 false" {
+				seen["popwait0-false"] = true
+			}
+		}
 		switch {
 		case strings.HasPrefix(st.Access, "cas next") && strings.HasSuffix(st.Access, "fail"):
 			seen["push-link-cas-lost"] = true
-		case st.Access == "yield":
+		case st.Access == "yield" && call != "w":
 			seen["push-spin-gosched"] = true
 		case strings.HasPrefix(st.Access, "cas head") && strings.HasSuffix(st.Access, "fail"):
 			seen["pop-head-cas-lost"] = true
